@@ -14,7 +14,7 @@
    they changed). *)
 From Coq Require Import ZArith List Bool.
 Import ListNotations.
-From GV Require Import Common.Wire C06.Model gen.Gen_command.
+From GV Require Import Common.Wire gen.Gen_groups gen.Gen_combine gen.Gen_commands C06.Model gen.Gen_command.
 Open Scope Z_scope.
 
 (* glue.core.edit_subset_mode: ReplaceMode, AndMode, OrMode, XorMode, AndNotMode, NewMode *)
@@ -248,11 +248,232 @@ Fixpoint dec_ops (l : list tree) : list op :=
 
 (* T 1 [pool; ncolors; mode; T _ prelude (C06 ops); T _ edit (group ids); T _ session ops]
    -> T 0 [observation of the start state; observation after each session op] *)
-Definition run_case (t : tree) : tree :=
+Definition run_case_hand (t : tree) : tree :=
   match t with
   | T 1 [T pool _; T ncol _; T m _; T _ pre; ed; T _ ops] =>
       let b := run (init pool ncol) (dec_ops pre) in
       let s := start b (to_zs ed) (dec_mode m) in
       T 0 (sobserve 0 s :: srun_obs s ops)
   | _ => err (-2)
+  end.
+
+(* ==================================================================================================================== *)
+(* C13 — the TRANSLATED commands (coq/gen/Gen_commands.v, regenerated from glue/core/command.py, edit_subset_mode.py and
+   data_collection.py on every run) as a second machine, next to the hand model of C13/Model.v.  Definitions only.
+   C13/GenEquiv*.v prove that this machine and the hand model make the same steps and transport the theorems.
+
+   The machine: a `session sexpr` (heap of Gen_groups + the selection of every group + EditSubsetMode) and the two stacks of
+   CommandStack, most recent first as in the hand model, holding the command OBJECTS (kind + `cobj`: keyword arguments and
+   what do() recorded).  do / undo of a command are the generated functions; nothing else is interpreted here. *)
+(* SubsetState(), AndState, OrState, XorState, InvertState, state.copy() (a copy of a tree is the tree) *)
+Definition P13 : prims sexpr := mkprims sexpr SEmpty SAnd SOr SXor SNot (fun x => x).
+
+Definition gsession : Type := session sexpr.
+Definition gcobj : Type := cobj sexpr.
+
+Inductive gkind : Type := KAdd | KRem | KApply | KRoi.
+
+(* the apply_func the harness (and every viewer) passes to ApplyROI: EditSubsetMode.update(collection, state of the region, override_mode=ov) *)
+Definition harness_apply_func (ov : option mode_name) : sexpr -> gsession -> sres sexpr :=
+  fun roi ss => EditSubsetMode_update P13 roi ov ss.
+
+Definition gcmd_do (k : gkind) (c : gcobj) (ss : gsession) : cres sexpr :=
+  match k with
+  | KAdd => AddData_do c ss
+  | KRem => let (c', ss') := RemoveData_do c ss in CDone c' ss'
+  | KApply => ApplySubsetState_do P13 c ss
+  | KRoi => ApplyROI_do (harness_apply_func (c_override_mode c)) c ss
+  end.
+
+Definition gcmd_undo (k : gkind) (c : gcobj) (ss : gsession) : cres sexpr :=
+  match k with
+  | KAdd => let (c', ss') := AddData_undo c ss in CDone c' ss'
+  | KRem => RemoveData_undo c ss
+  | KApply => let (c', ss') := ApplySubsetState_undo c ss in CDone c' ss'
+  | KRoi => let (c', ss') := ApplyROI_undo c ss in CDone c' ss'
+  end.
+
+Record gsess : Type := mkG {
+  g_ss : gsession;
+  g_cmds : list (gkind * gcobj);       (* CommandStack._command_stack, most recent first *)
+  g_undone : list (gkind * gcobj)      (* CommandStack._undo_stack, most recent first *)
+}.
+
+Inductive gsop : Type := GDo (k : gkind) (c : gcobj) | GUndo | GRedo.
+
+(* a step: the new machine state, or the code of the exception the command raised *)
+Definition gstack_do (k : gkind) (c : gcobj) (gs : gsess) : gsess + Z :=
+  match gcmd_do k c (g_ss gs) with
+  | CRaised e _ _ => inr e
+  | CDone c' ss' => inl (mkG ss' (firstn (Z.to_nat stack_keep) ((k, c') :: g_cmds gs)) [])
+  end.
+
+Definition gstack_undo (gs : gsess) : gsess + Z :=
+  match g_cmds gs with
+  | [] => inl gs
+  | (k, c) :: rest =>
+      match gcmd_undo k c (g_ss gs) with
+      | CRaised e _ _ => inr e
+      | CDone c' ss' => inl (mkG ss' rest ((k, c') :: g_undone gs))
+      end
+  end.
+
+Definition gstack_redo (gs : gsess) : gsess + Z :=
+  match g_undone gs with
+  | [] => inl gs
+  | (k, c) :: rest =>
+      match gcmd_do k c (g_ss gs) with
+      | CRaised e _ _ => inr e
+      | CDone c' ss' => inl (mkG ss' ((k, c') :: g_cmds gs) rest)
+      end
+  end.
+
+Definition gsstep (gs : gsess) (o : gsop) : gsess + Z :=
+  match o with GDo k c => gstack_do k c gs | GUndo => gstack_undo gs | GRedo => gstack_redo gs end.
+
+Fixpoint gsrun (gs : gsess) (ops : list gsop) : gsess + Z :=
+  match ops with
+  | [] => inl gs
+  | o :: rest => match gsstep gs o with inl gs' => gsrun gs' rest | inr e => inr e end
+  end.
+
+Definition gsop_status (gs : gsess) (o : gsop) : Z :=
+  match o with
+  | GDo _ _ => 0
+  | GUndo => match g_cmds gs with [] => 3 | _ => 0 end
+  | GRedo => match g_undone gs with [] => 3 | _ => 0 end
+  end.
+
+(* a fresh command object built from keyword arguments *)
+Definition no_elist : elist := mkEl (-1) [].
+Definition mk_add (d : Z) : gcobj := mkCobj d SEmpty SEmpty None false false [] [] no_elist.
+Definition mk_apply (e : sexpr) (ov : option mode_name) : gcobj := mkCobj (-1) e e ov false false [] [] no_elist.
+
+(* the session a harness case starts from: Session(data_collection=dc) after `edit_subset_mode.edit_subset = [..]` (list object 0) *)
+Definition gstart (h : heap) (gst : Z -> sexpr) (ed : list Z) (m : mode_name) : gsess :=
+  mkG (mkSession h gst (mkEl 0 ed) m true 1 []) [] [].
+
+(* the modes of the two models *)
+Definition mode_of (m : emode) : mode_name :=
+  match m with MReplace => M_ReplaceMode | MAnd => M_AndMode | MOr => M_OrMode | MXor => M_XorMode | MAndNot => M_AndNotMode | MNew => M_NewMode end.
+Definition emode_of (m : mode_name) : emode :=
+  match m with M_ReplaceMode => MReplace | M_AndMode => MAnd | M_OrMode => MOr | M_XorMode => MXor | M_AndNotMode => MAndNot | M_NewMode => MNew end.
+
+(* the hand-model command a command object stands for *)
+Definition cmd_of (k : gkind) (c : gcobj) : cmd :=
+  match k with
+  | KAdd => AddData (c_data c)
+  | KRem => RemoveData (c_data c)
+  | KApply => Apply (c_subset_state c) (option_map emode_of (c_override_mode c))
+  | KRoi => Apply (c_roi c) (option_map emode_of (c_override_mode c))
+  end.
+
+(* the hand-model state a session shows: labels and colours from the heap, selections from s_gstate; no ghost lists *)
+Definition state_of (ss : gsession) : state :=
+  let h := s_heap ss in
+  mkState (h_data h) (h_groups h) (h_dsubs h) (h_gsubs h)
+          (fun g => mkGattr (s_gstate ss g) (h_glabel h g) (h_gcolor h g)) [] []
+          (h_next_did h) (h_next_gid h) (h_next_sid h) (h_sg_count h) (h_ncolors h).
+
+(* ---------- wire ---------- *)
+Definition dec_gcmd (t : tree) : option (gkind * gcobj) :=
+  match t with
+  | T 1 [T d _] => Some (KAdd, mk_add d)
+  | T 2 [T d _] => Some (KRem, mk_add d)
+  | T 3 [e; T 0 []] => Some (KApply, mk_apply (dec_sexpr e) None)
+  | T 3 [e; T 1 [T m _]] => Some (KApply, mk_apply (dec_sexpr e) (Some (mode_of (dec_mode m))))
+  | T 4 [e; T 0 []] => Some (KRoi, mk_apply (dec_sexpr e) None)
+  | T 4 [e; T 1 [T m _]] => Some (KRoi, mk_apply (dec_sexpr e) (Some (mode_of (dec_mode m))))
+  | _ => None
+  end.
+
+Definition dec_gsop (t : tree) : option gsop :=
+  match t with
+  | T 1 [c] => match dec_gcmd c with Some (k, c) => Some (GDo k c) | None => None end
+  | T 2 [] => Some GUndo
+  | T 3 [] => Some GRedo
+  | _ => None
+  end.
+
+Definition enc_gcmd (p : gkind * gcobj) : tree := enc_cmd (cmd_of (fst p) (snd p)).
+
+Definition enc_event (e : sevent) : tree :=
+  match e with EvEditSubset items m => T (enc_mode (emode_of m)) [zs items] end.
+
+(* what do() recorded on the command that was executed / undone in this step *)
+Definition enc_record (c : gcobj) : tree :=
+  T 0 [ T 0 (map (fun p => T 0 [leaf (fst p); enc_sexpr (snd p)]) (c_old_groups c));
+        T 0 (map (fun p => T 0 [leaf (sub_data (fst p)); leaf (sub_group (fst p)); enc_sexpr (snd p)]) (c_old_states c));
+        zs (el_items (c_old_edit_subset c));
+        leaf (if c_added c then 1 else 0);
+        leaf (if c_removed c then 1 else 0) ].
+
+Definition last_record (o : gsop) (gs : gsess) : tree :=
+  match o with
+  | GUndo => match g_undone gs with p :: _ => enc_record (snd p) | [] => T 9 [] end
+  | _ => match g_cmds gs with p :: _ => enc_record (snd p) | [] => T 9 [] end
+  end.
+
+(* positions 0-5 as `sobserve`; then the EditSubsetMessages of this step and the record of the command *)
+Definition gsobserve (status : Z) (rec : tree) (gs : gsess) : tree :=
+  let ss := g_ss gs in
+  let st := state_of ss in
+  T 0 [ leaf status;
+        observe 0 st;
+        zs (el_items (s_edit ss));
+        T 0 (map enc_gcmd (g_cmds gs));
+        T 0 (map enc_gcmd (g_undone gs));
+        zs (map (fun g => mask (s_gstate ss g)) (h_groups (s_heap ss)));
+        T 0 (map enc_event (s_events ss));
+        rec ].
+
+Definition clear_traces (gs : gsess) : gsess :=
+  mkG (set_events [] (set_heap (hset_trace [] (s_heap (g_ss gs))) (g_ss gs))) (g_cmds gs) (g_undone gs).
+
+Fixpoint gsrun_obs (gs : gsess) (ops : list tree) : list tree :=
+  match ops with
+  | [] => []
+  | t :: rest =>
+    match dec_gsop t with
+    | None => [err (-2)]
+    | Some o =>
+        let gs0 := clear_traces gs in
+        match gsstep gs0 o with
+        | inr e => [T 0 [leaf (10 + e)]]          (* the command raised: 13 TypeError, 14 RuntimeError; the case ends here *)
+        | inl gs' => gsobserve (gsop_status gs0 o) (if gsop_status gs0 o =? 0 then last_record o gs' else T 9 []) gs' :: gsrun_obs gs' rest
+        end
+    end
+  end.
+
+(* the prelude of a case, on the generated side: DataCollection calls of Gen_groups + the selection of a new group *)
+Definition gpre_step (ss : gsession) (t : tree) : option gsession :=
+  match t with
+  | T 1 [T d _] => Some (set_heap (heap_of (DataCollection_append d (s_heap ss))) ss)
+  | T 2 [T d _] => Some (set_heap (DataCollection_remove d (s_heap ss)) ss)
+  | T 3 [] => Some (snd (call_new_subset_group SEmpty ss))
+  | T 3 [e] => Some (snd (call_new_subset_group (dec_sexpr e) ss))
+  | T 4 [T g _] => Some (set_heap (DataCollection_remove_subset_group g (s_heap ss)) ss)
+  | T 5 [T g _; e] => Some (if (0 <=? g) && (g <? h_next_gid (s_heap ss)) then set_gstate (hupd (s_gstate ss) g (dec_sexpr e)) ss else ss)
+  | _ => None
+  end.
+
+Fixpoint gpre_run (ss : gsession) (ts : list tree) : option gsession :=
+  match ts with
+  | [] => Some ss
+  | t :: r => match gpre_step ss t with Some ss' => gpre_run ss' r | None => None end
+  end.
+
+(* T 1 [..]  the hand model (C13/Model.v)
+   T 2 [pool; ncolors; mode; T _ prelude; T _ edit; T _ session ops]  the translated commands:
+        -> T 0 [observation of the start state; observation after each session op] *)
+Definition run_case (t : tree) : tree :=
+  match t with
+  | T 2 [T pool _; T ncol _; T m _; T _ pre; ed; T _ ops] =>
+      match gpre_run (mkSession (ginit pool ncol) (fun _ => SEmpty) (mkEl 0 []) M_ReplaceMode true 1 []) pre with
+      | None => err (-2)
+      | Some ss0 =>
+          let gs := gstart (s_heap ss0) (s_gstate ss0) (to_zs ed) (mode_of (dec_mode m)) in
+          T 0 (gsobserve 0 (T 9 []) gs :: gsrun_obs gs ops)
+      end
+  | _ => run_case_hand t
   end.
